@@ -114,7 +114,7 @@ fn boxed_stack_release(rng: &mut Rng) -> Result<(), String> {
     let hist;
     {
         let buf = ConcurrentStackRB::<Rc<()>, N>::from(core::array::from_fn(|_| token.clone()));
-        if Rc::strong_count(&token) != N + 1 { return Err("setup".into()); }
+        if Rc::strong_count(&token) != N + 1 { return Err(format!("ConcurrentStackRB::<Rc<()>, {}>::from([..; {}]): the buffer holds {} of the {} supplied items right after construction", N, N, Rc::strong_count(&token) - 1, N)); }
         verif_hooks::set_listener(Some(l.clone()));
         let mut order: Vec<usize> = if three { vec![0, 1, 2] } else { vec![0, 2] };
         for i in (1..order.len()).rev() { let j = rng.next(i as u64 + 1) as usize; order.swap(i, j); }
@@ -173,9 +173,17 @@ fn main() {
             let mut b = ConcurrentStackRB::<D7, N>::default(); let (mut p, _c) = b.split();
             let ok = unsafe { p.get_next_slices_mut(N - 1) }.map(|(h, t)| h.iter().chain(t.iter()).all(|x| *x == D7::default())).unwrap_or(false);
             if !ok || p.buf_len() != N { println!("MISMATCH ConcurrentStackRB::default(): length {} / not every slot holds T::default()", p.buf_len()); std::process::exit(1); }
-            let mut b = LocalStackRB::<D7, N>::from([D7(1), D7(2), D7(3), D7(4), D7(5)]); let (mut p, _c) = b.split();
-            let got: Vec<u32> = unsafe { p.get_next_slices_mut(N - 1) }.map(|(h, t)| h.iter().chain(t.iter()).map(|x| x.0).collect()).unwrap_or_default();
-            if got != vec![1, 2, 3, 4] { println!("MISMATCH LocalStackRB::from([1,2,3,4,5]): the producer's window reads {:?}", got); std::process::exit(1); }
+            let mut b = LocalStackRB::<D7, N>::from([D7(1), D7(2), D7(3), D7(4), D7(5)]); let (mut p, mut c) = b.split();
+            let mut got: Vec<u32> = unsafe { p.get_next_slices_mut(N - 1) }.map(|(h, t)| h.iter().chain(t.iter()).map(|x| x.0).collect()).unwrap_or_default();
+            // the LAST cell too: move both iterators on by N - 1 and look at the one slot that was the gap
+            unsafe { p.advance(N - 1); c.advance(N - 1); }
+            got.extend(unsafe { p.get_next_slices_mut(1) }.map(|(h, t)| h.iter().chain(t.iter()).map(|x| x.0).collect::<Vec<u32>>()).unwrap_or_default());
+            if got != vec![1, 2, 3, 4, 5] { println!("MISMATCH LocalStackRB::from([1,2,3,4,5]): the buffer holds {:?} (supplied contents are kept in order, in every one of the {} cells)", got, N); std::process::exit(1); }
+            let b = ConcurrentHeapRB::<D7>::from(vec![D7(1), D7(2), D7(3), D7(4), D7(5)]); let (mut p, mut c) = b.split();
+            let mut got: Vec<u32> = unsafe { p.get_next_slices_mut(4) }.map(|(h, t)| h.iter().chain(t.iter()).map(|x| x.0).collect()).unwrap_or_default();
+            unsafe { p.advance(4); c.advance(4); }
+            got.extend(unsafe { p.get_next_slices_mut(1) }.map(|(h, t)| h.iter().chain(t.iter()).map(|x| x.0).collect::<Vec<u32>>()).unwrap_or_default());
+            if got != vec![1, 2, 3, 4, 5] { println!("MISMATCH ConcurrentHeapRB::from(vec![1,2,3,4,5]): the buffer holds {:?}", got); std::process::exit(1); }
         }
         // n = 0 is refused with a panic by EVERY constructor of every variant
         #[cfg(not(feature = "vmem"))]
